@@ -136,6 +136,15 @@ def _run_stream(case, rec):
                           % (case['kinds'][i], len(f), u.value[0]),
                           {'type': 'mutants', 'inputs': [f], 'tail': b''})
             return
+        if case['kinds'][i] == 'body' and \
+                bytes(getattr(u.value[2], 'value', b'')) != f[7:-1]:
+            rec.violation('body-content-differs',
+                          'valid body frame of %d payload bytes decoded to '
+                          '%d bytes' % (len(f) - 8, len(getattr(
+                              u.value[2], 'value', b''))),
+                          {'type': 'mutants', 'inputs':
+                           [f if len(f) < 5000 else f[:64]], 'tail': b''})
+            return
         alone.append((u.value[1], _summ(u.value[2])))
     # tail independence of the first frame
     for tail in case['tails']:
